@@ -249,7 +249,8 @@ def run(ctx):
             for o in bad[:1]:
                 ctx.report("C10-cmp-range", opn, "the cross product in %s can overflow for operands below 2^15" % opn, mir.span_loc(o[5]))
     from .c09 import full_range_failures
-    fails = full_range_failures(fb, CMPS)
+    from .c09 import sign_invariant_holds
+    fails = full_range_failures(fb, CMPS, pos_den_only=sign_invariant_holds(fb))
     for opn in sorted(CMPS):
         ctx.inst("C10-never-wrong/%s" % opn, "full-range", {"failing": sorted(op for (fn, op) in fails if fn == CMPS[opn])})
     for (fn, op), info in sorted(fails.items()):
